@@ -612,6 +612,245 @@ func normaliseOnce(pkgs map[string]*packages.Package) int {
 				n++
 				return true
 			}, nil)
+			// (v) a join variable: `var v T` (or `v := pure`), an if/else whose arms end in `v = e`, then one
+			// terminating statement reading v once — the statement is sunk into the arms with the arm's value
+			// (the declared value where an arm assigns nothing), which is how the two-exit form reads
+			astutil.Apply(f, func(c *astutil.Cursor) bool {
+				blk, ok := c.Node().(*ast.BlockStmt)
+				if !ok {
+					return true
+				}
+				for i := 0; i+2 < len(blk.List); i++ {
+					var name *ast.Ident
+					var e0 ast.Expr
+					switch d := blk.List[i].(type) {
+					case *ast.DeclStmt:
+						gd := d.Decl.(*ast.GenDecl)
+						if gd.Tok == token.VAR && len(gd.Specs) == 1 {
+							if vs := gd.Specs[0].(*ast.ValueSpec); len(vs.Names) == 1 && len(vs.Values) == 0 {
+								name = vs.Names[0]
+							}
+						}
+					case *ast.AssignStmt:
+						if d.Tok == token.DEFINE && len(d.Lhs) == 1 && len(d.Rhs) == 1 && (isConst(d.Rhs[0]) || pureExpr(d.Rhs[0])) {
+							if _, isCall := d.Rhs[0].(*ast.CallExpr); !isCall {
+								name, _ = d.Lhs[0].(*ast.Ident)
+								e0 = d.Rhs[0]
+							}
+						}
+					}
+					if name == nil || name.Name == "_" || info.Defs[name] == nil {
+						continue
+					}
+					obj := info.Defs[name]
+					is, ok := blk.List[i+1].(*ast.IfStmt)
+					if !ok {
+						continue
+					}
+					thenB := is.Body
+					elseB, ok := is.Else.(*ast.BlockStmt)
+					if !ok {
+						continue
+					}
+					tail := blk.List[i+2]
+					if !stmtTerminates(tail) {
+						continue
+					}
+					if _, isBranch := tail.(*ast.BranchStmt); isBranch {
+						continue
+					}
+					mentions := func(n ast.Node) int {
+						k := 0
+						ast.Inspect(n, func(m ast.Node) bool {
+							if id, ok := m.(*ast.Ident); ok && info.Uses[id] == obj {
+								k++
+							}
+							return true
+						})
+						return k
+					}
+					if mentions(tail) != 1 {
+						continue
+					}
+					// names the tail reads must mean the same inside the arms
+					tailNames := map[string]bool{}
+					ast.Inspect(tail, func(m ast.Node) bool {
+						if id, ok := m.(*ast.Ident); ok {
+							tailNames[id.Name] = true
+						}
+						return true
+					})
+					clash := false
+					for _, arm := range []*ast.BlockStmt{thenB, elseB} {
+						for nm := range declaredIn(arm) {
+							if tailNames[nm] {
+								clash = true
+							}
+						}
+					}
+					if is.Init != nil {
+						if as, ok := is.Init.(*ast.AssignStmt); ok && as.Tok == token.DEFINE {
+							for _, l := range as.Lhs {
+								if id, ok := l.(*ast.Ident); ok && tailNames[id.Name] {
+									clash = true
+								}
+							}
+						} else {
+							clash = true
+						}
+					}
+					if clash {
+						continue
+					}
+					type armPlan struct {
+						blk  *ast.BlockStmt
+						rhs  ast.Expr // nil: the declared value
+						drop bool     // the arm's last statement is the assignment
+						skip bool     // the arm leaves on its own
+					}
+					var plans []armPlan
+					okArms, assigns := true, 0
+					for _, arm := range []*ast.BlockStmt{thenB, elseB} {
+						pl := armPlan{blk: arm}
+						if terminates(arm) && mentions(arm) == 0 {
+							pl.skip = true
+						} else if n := len(arm.List); n > 0 {
+							if as, ok := arm.List[n-1].(*ast.AssignStmt); ok && as.Tok == token.ASSIGN && len(as.Lhs) == 1 && len(as.Rhs) == 1 {
+								if id, ok := as.Lhs[0].(*ast.Ident); ok && info.Uses[id] == obj && mentions(arm) == 1 {
+									if tv, ok := info.Types[as.Rhs[0]]; ok {
+										if _, isTuple := tv.Type.(*types.Tuple); !isTuple {
+											pl.rhs, pl.drop = as.Rhs[0], true
+											assigns++
+										}
+									}
+								}
+							}
+						}
+						if !pl.skip && !pl.drop {
+							if mentions(arm) != 0 || e0 == nil {
+								okArms = false
+							}
+						}
+						plans = append(plans, pl)
+					}
+					if !okArms || assigns == 0 || useCount[obj] != assigns+1 {
+						continue
+					}
+					// build the arms' tails first; nothing is changed unless all of them can be built
+					var tails []ast.Stmt
+					failed := false
+					for _, pl := range plans {
+						if pl.skip {
+							tails = append(tails, nil)
+							continue
+						}
+						cp, err := copyStmts([]ast.Stmt{tail}, tail.Pos())
+						if err != nil || len(cp) != 1 {
+							failed = true
+							break
+						}
+						val := pl.rhs
+						if val == nil {
+							ev, err := copyStmts([]ast.Stmt{&ast.AssignStmt{Lhs: []ast.Expr{ast.NewIdent("_")}, Tok: token.ASSIGN, Rhs: []ast.Expr{e0}}}, tail.Pos())
+							if err != nil || len(ev) != 1 {
+								failed = true
+								break
+							}
+							val = ev[0].(*ast.AssignStmt).Rhs[0]
+						}
+						done := 0
+						st := astutil.Apply(cp[0], func(cc *astutil.Cursor) bool {
+							if id, ok := cc.Node().(*ast.Ident); ok && id.Name == name.Name {
+								if _, isSel := cc.Parent().(*ast.SelectorExpr); isSel && cc.Name() == "Sel" {
+									return true
+								}
+								if _, isKV := cc.Parent().(*ast.KeyValueExpr); isKV && cc.Name() == "Key" {
+									return true
+								}
+								cc.Replace(val)
+								done++
+								return false
+							}
+							return true
+						}, nil)
+						if done != 1 {
+							failed = true
+							break
+						}
+						tails = append(tails, st.(ast.Stmt))
+					}
+					if failed {
+						continue
+					}
+					for k, pl := range plans {
+						if pl.skip {
+							continue
+						}
+						if pl.drop {
+							pl.blk.List = pl.blk.List[:len(pl.blk.List)-1]
+						}
+						pl.blk.List = append(pl.blk.List, tails[k])
+					}
+					blk.List = append(append(append([]ast.Stmt{}, blk.List[:i]...), is), blk.List[i+3:]...)
+					n++
+					return true
+				}
+				return true
+			}, nil)
+			// (w) `L: for … { A; for … { if c { …; continue L } }; REST }` is the found-flag form
+			// `for … { A; found := false; for … { if c { …; found = true; break } }; if !found { REST } }`
+			astutil.Apply(f, func(c *astutil.Cursor) bool {
+				ls, ok := c.Node().(*ast.LabeledStmt)
+				if !ok {
+					return true
+				}
+				body := loopBody(ls.Stmt)
+				if body == nil {
+					return true
+				}
+				var refs []*ast.BranchStmt
+				ast.Inspect(ls.Stmt, func(m ast.Node) bool {
+					if b, ok := m.(*ast.BranchStmt); ok && b.Label != nil && b.Label.Name == ls.Label.Name {
+						refs = append(refs, b)
+					}
+					return true
+				})
+				if len(refs) != 1 || refs[0].Tok != token.CONTINUE {
+					return true
+				}
+				for j, st := range body.List {
+					inner := loopBody(st)
+					if inner == nil {
+						continue
+					}
+					for _, s2 := range inner.List {
+						is, ok := s2.(*ast.IfStmt)
+						if !ok || is.Else != nil || len(is.Body.List) == 0 || is.Body.List[len(is.Body.List)-1] != ast.Stmt(refs[0]) {
+							continue
+						}
+						flag := "found_" + ls.Label.Name
+						if declaredIn(body)[flag] {
+							return true
+						}
+						at := refs[0].Pos()
+						rest := append([]ast.Stmt{}, body.List[j+1:]...)
+						is.Body.List[len(is.Body.List)-1] = &ast.AssignStmt{Lhs: []ast.Expr{&ast.Ident{NamePos: at, Name: flag}}, TokPos: at, Tok: token.ASSIGN, Rhs: []ast.Expr{&ast.Ident{NamePos: at, Name: "true"}}}
+						is.Body.List = append(is.Body.List, &ast.BranchStmt{TokPos: at, Tok: token.BREAK})
+						nl := append([]ast.Stmt{}, body.List[:j]...)
+						nl = append(nl, &ast.AssignStmt{Lhs: []ast.Expr{&ast.Ident{NamePos: st.Pos(), Name: flag}}, TokPos: st.Pos(), Tok: token.DEFINE, Rhs: []ast.Expr{&ast.Ident{NamePos: st.Pos(), Name: "false"}}}, st)
+						if len(rest) > 0 {
+							nl = append(nl, &ast.IfStmt{If: rest[0].Pos(), Cond: &ast.UnaryExpr{OpPos: rest[0].Pos(), Op: token.NOT, X: &ast.Ident{NamePos: rest[0].Pos(), Name: flag}}, Body: &ast.BlockStmt{Lbrace: rest[0].Pos(), List: rest, Rbrace: body.Rbrace}})
+						} else {
+							nl = append(nl, &ast.AssignStmt{Lhs: []ast.Expr{ast.NewIdent("_")}, Tok: token.ASSIGN, Rhs: []ast.Expr{&ast.Ident{NamePos: body.Rbrace, Name: flag}}})
+						}
+						body.List = nl
+						c.Replace(ls.Stmt)
+						n++
+						return true
+					}
+				}
+				return true
+			}, nil)
 			// (c0) `if c := cond; c {…}` with c used nowhere else is `if cond {…}`
 			ast.Inspect(f, func(nd ast.Node) bool {
 				is, ok := nd.(*ast.IfStmt)
